@@ -278,7 +278,11 @@ func (e *Engine) execInstr(st *State, b *ssa.BasicBlock, idx int, in ssa.Instruc
 		fr.regs[x] = term(r, x.Type())
 		return true
 	case *ssa.MakeChan:
-		fr.regs[x] = term(e.allocRef(st, "chan"), x.Type())
+		ref := e.allocRef(st, "chan")
+		fr.regs[x] = term(ref, x.Type())
+		// the buffer size is a property of the channel object for its whole life
+		e.S.DefineFun("chan_cap", "(declare-fun chan_cap (Int) Int)")
+		st.assume(fmt.Sprintf("(= (chan_cap %s) %s)", ref, e.asTerm(st, e.coerce(e.reg(st, x.Size), tInt))))
 		return true
 	case *ssa.MapUpdate:
 		e.runAts(st, in, false)
